@@ -150,7 +150,7 @@ def run(tier: str, seed: int) -> int:
     check_translations(run_, ex, jnp, rng, tier)
     check_permutations(run_, ex, jnp, rng, tier)
     check_embedding(run_, ex, jnp, rng, tier)
-    shutil.rmtree(tlc.SCRATCH, ignore_errors=True)
+    tlc.cleanup_mine()
     run_.traces = run_.evaluations
     run_.rule = ("TLC: ShiftOK/PermOK/VortSwapOK/EmbedOK on every terminal-and-applied state of MC_Nonlin; replay: one metamorphic case per "
                  "(class, argument variant, D, N, order, group element): grid shifts (white noise), axis permutations with channel permutation "
